@@ -215,6 +215,11 @@ func (t *Transport) decodeFromWithCompression(rd io.Reader) (int, []byte, error)
 	if err := frd.Close(); err != nil {
 		return 0, nil, err
 	}
+	// the DEFLATE stream ends before the websocket message does (final empty frame): the message
+	// reader must be read to EOF, otherwise the next message cannot be read on some back-ends
+	if _, err := io.Copy(io.Discard, ird); err != nil {
+		return 0, nil, err
+	}
 	return ird.ReadBytes, m, nil
 }
 
@@ -233,6 +238,9 @@ func (t *Transport) decodeFromWithContextTakeover(rd io.Reader) (int, []byte, er
 		t.readWindowBuf.Next(t.readWindowBuf.Len() - t.compressConfig.WindowSize())
 	}
 	if err := frd.Close(); err != nil {
+		return 0, nil, err
+	}
+	if _, err := io.Copy(io.Discard, ird); err != nil {
 		return 0, nil, err
 	}
 	return ird.ReadBytes, m, nil
